@@ -20,7 +20,7 @@ Det3(m) == m[1][1] * (m[2][2] * m[3][3] - m[2][3] * m[3][2])
 \* back-facing iff the screen-space cross product is positive
 SceneOf(r) ==
   LET s == r.scene IN
-  [np |-> s.np, fp |-> s.fp, col |-> s.col, nfr |-> s.nfr, npc |-> s.npc, ndeg |-> s.ndeg, dpix |-> s.dpix,
+  [np |-> s.np, fp |-> s.fp, col |-> s.col, nfr |-> s.nfr, npc |-> s.npc, ndeg |-> s.ndeg, dpix |-> s.dpix, cover |-> s.cover,
    face |-> [t \in 1..Len(s.tv) |-> IF Det3(s.tv[t]) * s.vsign > 0 THEN 1 ELSE 0],
    \* distance from the eye: the w of the lattice vertices bounds that of every point
    far |-> [t \in 1..Len(s.tv) |->
@@ -43,7 +43,8 @@ Verdict(r) ==
   ELSE LET sc == SceneOf(r)
            v == [h \in 1..Len(r.hists) |-> RunHist(sc, r.hists[h])]
            B == {h \in 1..Len(r.hists) : v[h] # 0}
-       IN IF B = {} THEN <<0, 0>> ELSE LET h == CHOOSE h \in B : \A g \in B : h <= g IN <<h, v[h]>>
+       IN IF ~SceneOK(sc) THEN <<1, 1>>          \* (reported against the first call)
+          ELSE IF B = {} THEN <<0, 0>> ELSE LET h == CHOOSE h \in B : \A g \in B : h <= g IN <<h, v[h]>>
 
 Verdicts == [k \in DOMAIN Rec |-> Verdict(Rec[k])]
 Bad == {k \in DOMAIN Rec : Verdicts[k][1] # 0}
